@@ -2,7 +2,7 @@
 from py import vlib
 
 MODELS = ['mlp', 'linear_nobias', 'seq', 'conv', 'emb', 'embpad', 'norm', 'gn', 'sublinear']
-SENS_MODELS = MODELS + ['rnnpack']
+SENS_MODELS = MODELS + ['rnnpack', 'tied_custom']
 CLIPS = ['flat', 'per_layer', 'adaptive', 'ghost']
 
 
